@@ -117,6 +117,8 @@ def _event(fn):
         return [1, code, bytes(exc.remaining_data)], False
     except RuntimeError:
         return [2], True
+    except Exception as exc:        # any other class leaving next(): never produced by the model
+        return [9, type(exc).__name__.encode()], True
     return [0, _Raw(pkt)], False
 
 
